@@ -26,7 +26,7 @@ SLOTS = {
 }
 
 
-def cases(rng, quick, gr):
+def _cases(rng, quick, gr):
     # 1. undefined names in every slot and at several statement positions
     for slot, tmpl in SLOTS.items():
         for name in ["u", "undefined_1", "N", "xx"]:
@@ -125,6 +125,39 @@ def cases(rng, quick, gr):
         fault = rng.choice(["undef_%d" % rng.randint(0, 9), "Undef[0]"])
         lines[k] = head + "(" + fault + (", " + tail if not tail.startswith(")") else tail)
         yield {"tag": "injected-undefined", "text": "\n".join(lines)}
+
+
+def cases(rng, quick, gr):
+    texts = []
+    for c in _cases(rng, quick, gr):
+        if "text" in c and not c.get("files") and len(texts) < 400:
+            texts.append(c["text"])
+        yield c
+    # a name that WAS a loop variable is undefined again after its loop: used afterwards in every slot
+    for slot, tmpl in SLOTS.items():
+        for lv in ["m", "idx"]:
+            for hdr in ["0:3", "[4, 5]"]:
+                t = HDR + DECLS + "for int %s in %s\n    Vac | %s\n" % (lv, hdr, lv) + tmpl.replace("{F}", lv) + "\nVac | 3\n"
+                texts.append(t)
+                yield {"tag": "ended-loop-variable:" + slot, "text": t}
+    # the verdict does not depend on the process environment: the same scripts in an interpreter whose working directory has been
+    # removed are refused with the same exception class (and the valid ones load)
+    sample = rng.sample(texts, min(len(texts), 60 if quick else 400)) + [HDR + DECLS + "Vac | 0\n", HDR + "Sgate(0.5) | 1\n"]
+
+    def pred(impl, sample=sample):
+        import subproc
+        outs = subproc.run_batch([{"kind": "loads", "text": t} for t in sample], "0", "@removed")
+        for t, o in zip(sample, outs):
+            try:
+                impl.loads(t)
+                ref = ("ok", None)
+            except Exception as e:  # noqa: BLE001
+                ref = ("error", type(e).__name__)
+            got = (o.get("out"), o.get("cls") if o.get("out") == "error" else None)
+            if got != ref:
+                return "in a process whose working directory no longer exists the script gives %s instead of %s: %r" % (got, ref, t[-120:])
+        return None
+    yield {"tag": "environment-removed-cwd", "pred": pred, "key": "environment", "input": {"check": "pred", "tag": "environment-removed-cwd"}}
 
 
 def run(tier, seed):
